@@ -80,6 +80,7 @@ pub struct RecLayer {
     /// inside on_close: was the span's data still readable?
     pub close_saw_span: AtomicUsize,
     pub last_close_id: AtomicU64,
+    pub close_bad_meta: AtomicUsize,
 }
 impl RecLayer {
     pub const fn new(id: u8) -> Self {
@@ -91,7 +92,7 @@ impl RecLayer {
             id_change: AtomicUsize::new(0), reg_dispatch: AtomicUsize::new(0), on_subscribe: AtomicUsize::new(0),
             last_seq: AtomicUsize::new(0),
             ans_interest: AtomicU8::new(2), ans_enabled: AtomicU8::new(1), ans_event_enabled: AtomicU8::new(1),
-            ans_hint: AtomicU8::new(6), close_saw_span: AtomicUsize::new(0), last_close_id: AtomicU64::new(0),
+            ans_hint: AtomicU8::new(6), close_saw_span: AtomicUsize::new(0), last_close_id: AtomicU64::new(0), close_bad_meta: AtomicUsize::new(0),
         }
     }
     fn stamp(&self) {
@@ -136,11 +137,23 @@ where
     fn on_close(&self, id: span::Id, ctx: Context<'_, C>) {
         bump(&self.close); self.stamp();
         self.last_close_id.store(id.into_u64(), Ordering::Relaxed);
-        if ctx.span(&id).is_some() { bump(&self.close_saw_span); }
+        // while a layer handles the close the span's stored data must still be readable
+        if let Some(s) = ctx.span(&id) {
+            bump(&self.close_saw_span);
+            if s.metadata().name().len() != 2 { bump(&self.close_bad_meta); }
+        }
+        if self.id == 1 {
+            let n = ld(&CLOSE_N);
+            if n < 4 { CLOSE_LOG[n].store(id.into_u64(), Ordering::Relaxed); }
+            CLOSE_N.store(n + 1, Ordering::Relaxed);
+        }
     }
     fn on_id_change(&self, _: &span::Id, _: &span::Id, _: Context<'_, C>) { bump(&self.id_change); self.stamp(); }
 }
 
+/// ids in the order layer 1 saw them close
+pub static CLOSE_LOG: [AtomicU64; 4] = [AtomicU64::new(0), AtomicU64::new(0), AtomicU64::new(0), AtomicU64::new(0)];
+pub static CLOSE_N: AtomicUsize = AtomicUsize::new(0);
 pub static L1: RecLayer = RecLayer::new(1);
 pub static L2: RecLayer = RecLayer::new(2);
 pub static L3: RecLayer = RecLayer::new(3);
